@@ -15,7 +15,8 @@
 //!        not certain: floats, IDs, custom scalars, escapes, a scalar for a list, partial or
 //!        reordered input objects).
 //!  * `compare`: compares a serialised response with that expectation and reports differences
-//!    by JSON path KIND (`__Type.fields.isDeprecated`), ignoring only: the order of
+//!    by JSON path KIND (`<introspection type>.<field>`, e.g. `__Field.isDeprecated`,
+//!    `__InputValue.defaultValue|text`, `__Type.fields|order`), ignoring only: the order of
 //!    `__Schema.types`, `__Schema.directives`, `__Type.possibleTypes`, and the member order
 //!    (fields, enum values, arguments, locations) of built-in definitions.
 //!
@@ -315,12 +316,24 @@ fn canonical_int(t: &str) -> bool {
     t != "-0" && !digits.is_empty() && digits.len() <= 15 && digits.bytes().all(|b| b.is_ascii_digit()) && (digits == "0" || !digits.starts_with('0'))
 }
 
+/// A FloatValue literal that JavaScript's Number-to-String conversion reproduces unchanged:
+/// `-?int.frac` without exponent, canonical integer part, fraction not ending in `0`, at most
+/// 9 significant digits in total (so the shortest round-trip representation is the text itself
+/// and the magnitude is between 1e-6 and 1e21, where JavaScript uses plain decimal notation).
+fn canonical_decimal(t: &str) -> bool {
+    let body = t.strip_prefix('-').unwrap_or(t);
+    let Some((int, frac)) = body.split_once('.') else { return false };
+    let digits = |x: &str| !x.is_empty() && x.bytes().all(|b| b.is_ascii_digit());
+    digits(int) && digits(frac) && (int == "0" || !int.starts_with('0')) && !frac.ends_with('0') && int.len() + frac.len() <= 9 && frac.len() <= 5
+}
+
 fn plain_ascii(s: &str) -> bool {
     s.bytes().all(|b| (0x20..=0x7e).contains(&b) && b != b'"' && b != b'\\')
 }
 
 /// The text graphql-js v16 prints for a default value — `print(astFromValue(valueFromAST(lit,
-/// type), type))` — when that text is certain: canonical ints (also for Float), booleans, enum
+/// type), type))` — when that text is certain: canonical ints (also for Float), short plain
+/// decimals such as `1.5` or `-2.25` for Float, booleans, enum
 /// values, plain printable-ASCII quoted strings, `null`, lists of those given as lists, and
 /// input objects whose fields are given in definition order with no omitted field that has a
 /// default. `None` = only the coerced value is asserted.
@@ -341,6 +354,7 @@ pub fn certain_default_text(s: &RefSchema, ty: &Type, v: &Value) -> Option<Strin
             if s.is_builtin_type(n) {
                 return match (n.as_str(), v) {
                     ("Int", Value::Int(t)) | ("Float", Value::Int(t)) if canonical_int(t) => Some(t.clone()),
+                    ("Float", Value::Float(t)) if canonical_decimal(t) => Some(t.clone()),
                     ("String", Value::Str(x)) if !x.block && plain_ascii(&x.value) && x.raw == format!("\"{}\"", x.value) => Some(x.raw.clone()),
                     ("Boolean", Value::Bool(b)) => Some(b.to_string()),
                     _ => None,
@@ -781,7 +795,7 @@ pub fn execute(schema: &RefSchema, query: &Document) -> Result<J, String> {
 
 #[derive(Clone, Debug, PartialEq)]
 pub struct Diff {
-    /// root-cause kind, e.g. `diff|__Type.fields.isDeprecated` or `errors|<message>`
+    /// root-cause kind, e.g. `diff|__Field.isDeprecated` or `errors|<message>`
     pub kind: String,
     pub detail: String,
 }
@@ -796,15 +810,6 @@ fn short(j: &J) -> String {
         format!("{}…", &s[..end])
     } else {
         s
-    }
-}
-
-#[cfg(test)]
-fn strip(j: &J) -> J {
-    match j {
-        J::Object(m) => J::Object(m.iter().filter(|(k, _)| !k.starts_with('$')).map(|(k, v)| (k.clone(), strip(v))).collect()),
-        J::Array(a) => J::Array(a.iter().map(strip).collect()),
-        other => other.clone(),
     }
 }
 
@@ -837,7 +842,7 @@ impl Cmp<'_> {
         self.diffs.push(Diff { kind: format!("diff|{}", kind), detail: format!("at {}: {}", where_, detail) });
     }
 
-    /// `ctx` = "<ParentType>.<field>" through which this value was reached, `at` = concrete path.
+    /// `ctx` = "<type of the containing object>.<field>" of this value, `at` = concrete path.
     fn value(&mut self, ctx: &str, at: &str, parent_builtin: bool, e: &J, a: &J) {
         match e {
             J::Object(m) if m.contains_key("$any") => {
@@ -1042,7 +1047,7 @@ mod tests {
     fn run(sdl: &str, query: &str) -> J {
         let s = schema(sdl);
         let q = parse_document(query).unwrap();
-        strip(&execute(&s, &q).unwrap())
+        strip_annotations(&execute(&s, &q).unwrap())
     }
     fn find<'a>(list: &'a J, name: &str) -> &'a J {
         list.as_array().unwrap().iter().find(|x| x["name"] == name).unwrap_or_else(|| panic!("{name} not in {list}"))
@@ -1073,7 +1078,7 @@ mod tests {
     fn standard_query_parses_and_runs() {
         let q = parse_document(INTROSPECTION_QUERY).unwrap();
         let s = schema(SDL);
-        let data = strip(&execute(&s, &q).unwrap());
+        let data = strip_annotations(&execute(&s, &q).unwrap());
         let sc = &data["__schema"];
         assert_eq!(sc["description"], "The schema");
         assert_eq!(sc["queryType"], json!({"name": "TheQuery"}));
@@ -1108,7 +1113,7 @@ mod tests {
         let args = fields[2]["args"].as_array().unwrap();
         assert_eq!(args.len(), 2);
         // reordered object: only the value is asserted
-        assert_eq!(args[0]["defaultValue"], json!({"$default": {"type": "In", "literal": "{b: 4, a: 2}"}}));
+        assert_eq!(args[0]["defaultValue"], json!({"$default": {"type": "In", "literal": "{b: 4 a: 2}"}}));
         assert_eq!(args[1]["defaultValue"], "1");
         assert_eq!(args[1]["isDeprecated"], true);
         let i = find(&sc["types"], "I");
@@ -1201,6 +1206,14 @@ mod tests {
         assert_eq!(t("Int", "null").as_deref(), Some("null"));
         assert_eq!(t("Float", "3").as_deref(), Some("3"));
         assert_eq!(t("Float", "3.0"), None);
+        assert_eq!(t("Float", "1.5").as_deref(), Some("1.5"));
+        assert_eq!(t("Float", "-2.25").as_deref(), Some("-2.25"));
+        assert_eq!(t("Float", "0.5").as_deref(), Some("0.5"));
+        assert_eq!(t("Float", "0.0"), None);
+        assert_eq!(t("Float", "1.50"), None);
+        assert_eq!(t("Float", "0.0000001"), None);
+        assert_eq!(t("Float", "6.02E23"), None);
+        assert_eq!(t("Int", "1.5"), None);
         assert_eq!(t("Float", "1e3"), None);
         assert_eq!(t("Boolean", "true").as_deref(), Some("true"));
         assert_eq!(t("String", "\"hello world\"").as_deref(), Some("\"hello world\""));
@@ -1303,9 +1316,9 @@ mod tests {
         b["__schema"]["types"][qi]["fields"][2]["args"][0]["defaultValue"] = json!("{a: 2, b: 4}");
         assert_eq!(kinds(&b), Vec::<String>::new());
         b["__schema"]["types"][qi]["fields"][2]["args"][0]["defaultValue"] = json!("{a: 2, b: 5}");
-        assert_eq!(kinds(&b), ["diff|__Field.args.defaultValue|value"]);
+        assert_eq!(kinds(&b), ["diff|__InputValue.defaultValue|value"]);
         b["__schema"]["types"][qi]["fields"][2]["args"][0]["defaultValue"] = json!("{a: 2, b: ");
-        assert_eq!(kinds(&b), ["diff|__Field.args.defaultValue|unparseable"]);
+        assert_eq!(kinds(&b), ["diff|__InputValue.defaultValue|unparseable"]);
         // not exempt
         let mut b = a.clone();
         b["__schema"]["types"][qi]["fields"].as_array_mut().unwrap().swap(0, 1);
@@ -1315,13 +1328,13 @@ mod tests {
         assert_eq!(kinds(&b), ["diff|__Type.fields|missing"]);
         let mut b = a.clone();
         b["__schema"]["types"][qi]["fields"][1]["isDeprecated"] = json!(false);
-        assert_eq!(kinds(&b), ["diff|__Type.fields.isDeprecated"]);
+        assert_eq!(kinds(&b), ["diff|__Field.isDeprecated"]);
         let mut b = a.clone();
         b["__schema"]["types"][qi]["fields"][0]["type"]["ofType"]["kind"] = json!("OBJECT");
-        assert_eq!(kinds(&b), ["diff|__Type.ofType.kind"]);
+        assert_eq!(kinds(&b), ["diff|__Type.kind"]);
         let mut b = a.clone();
         b["__schema"]["types"][qi]["fields"][2]["args"][1]["defaultValue"] = json!("1.0");
-        assert_eq!(kinds(&b), ["diff|__Field.args.defaultValue|text"]);
+        assert_eq!(kinds(&b), ["diff|__InputValue.defaultValue|text"]);
         let mut b = a.clone();
         b["__schema"]["types"][qi]["interfaces"] = J::Null;
         assert_eq!(kinds(&b), ["diff|__Type.interfaces|not-a-list"]);
